@@ -544,6 +544,41 @@ CHECKS["C08"].update(
          "returns a fresh name; destination is not a directory.",
     technique="Coq proof over effect-program model with kill/fault points; vm_compute trace + post-state correspondence")
 
+CHECKS["C02"].update(
+    text="C02_roundtrip (forall well-formed ModelProto: ser (deser p) = Ok q and norm q = norm p) and its stage theorems, plus "
+         "entry-point theorems for standalone GraphProto, FunctionProto, AttributeProto (every kind except sparse; present-"
+         "but-empty vs absent sub-messages distinguished), TensorProto (external tensors with arbitrary extra external_data "
+         "entries, after fb2515e), ValueInfoProto and TypeProto (arbitrarily nested), all proved in Coq and closed. The model "
+         "is tied to serde.py by a converter proto -> Coq term and a per-case comparison inside Coq over 6 message kinds "
+         "(supported and unsupported streams), with a norm-aware Python oracle; IR-version gates and enum tables are "
+         "regenerated from the source on every run.",
+    note=TRUST + "No open findings; five defects found by this check are fixed in /repo (c4d9dd5, 952a3c2, 86f4e6a, 66aa20a, "
+         "fb2515e). Protobuf presence of map-entry keys/values and OperatorSetId fields, UTF-8 validity and decimal int parsing "
+         "are modelled, not verified; sparse attributes and map types raise NotImplementedError in serde (outside wf); "
+         "duplicated graph/function input names are outside the model.",
+    technique="Coq proof of proto->IR->proto round trip over a term model of the protos; vm_compute per-case correspondence "
+              "over 6 message kinds; per-run regenerated gates/enums")
+CHECKS["C11"].update(
+    text="Coq model of DoublyLinkedSet iteration (live sequence + frozen tombstone links, generator cursors) and of "
+         "RecursiveGraphIterator (stack of cursors over a forest, lazy subgraph entry, `recursive` predicate, enter/exit "
+         "callback trace), 35 closed theorems, none partial: list refinement, termination, schedule law (untouched nodes once "
+         "in order / pre-order), position laws, cursor independence, predicate asked exactly once per yielded node, callbacks "
+         "properly nested and balanced for every history of next() calls interleaved with edits. Tied by per-event "
+         "correspondence on DoublyLinkedSet, Graph, Function, all_nodes and reversed-of variants, and exhaustive schedule "
+         "trees; an exact plain-list oracle is the violation search.",
+    note=TRUST + "Graph.sort's order enters as a permutation (C12); CPython generator semantics are the model's cursor rules; "
+         "RecursiveGraphIterator.__iter__ (restart) is outside the model; the model pins the current number of enter/exit "
+         "callbacks per subgraph (twice), so a harmless clean-up there breaks the correspondence without an oracle failure.",
+    technique="Coq proof over cursor/tombstone model of iteration under edits; per-event vm_compute correspondence + exhaustive "
+              "schedule trees")
+CHECKS["C20"]["text"] = CHECKS["C20"]["text"] + (
+    " Journal hooks are in the model: hooks that never raise are transparent and are called exactly once per entry in order "
+    "(C20_hooks_transparent); restoration holds for every hook behaviour (C20_restore_hooks); what a raising hook does "
+    "(aborts the wrapped operation) is characterised as an observation outside the property's quantifier.")
+CHECKS["C20"]["note"] = CHECKS["C20"]["note"] + (
+    " Hooks are modelled as per-journal functions entry -> option exn fixed before entry; hooks that mutate the IR and hooks "
+    "added or cleared mid-block are not modelled.")
+
 
 def main():
     props = [json.loads(l) for l in open(os.path.join(VERIF, "properties.jsonl"))]
